@@ -53,6 +53,8 @@ def _case(draw):
     x_expr, _ = draw(st.sampled_from(["n", "s"])), None
     xe = progs.expr_n(draw, env, 1) if x_expr == "n" else progs.expr_s(draw, env, 1)
     te = progs.expr_s(draw, env, 0)
+    if draw(st.integers(0, 6)) == 3:
+        te = ["f", "none", [], []]   # '@t = none()': a reference to a None-valued variable prints str(None)
     dense = [c for c in table["cols"] if c["dense"]]
     n = draw(st.integers(1, 6))
     chunks = []
